@@ -87,6 +87,14 @@ def targeted_programs(dev):
                 {"op": "distribute", "src": 1, "col": 1, "dst": 0, "dw": L([(0, 2), (1, 2)]), "vol": 10, "label": "d"},
                 {"op": "save", "pre": "longer"}, {"op": "exit", "pre": "shorter"}]
     progs.append(h)
+    # a long worklist (more than 1024 records from one full-plate transfer): every record on its own line, str() shows all
+    h = _hdr("files/long", dev)
+    h["lw"] = [gen.mk_plate("source", 16, 24, 0, 100, [50] * 384), gen.mk_plate("target", 16, 24, 0, 100, [0] * 384)]
+    allw = [(rr, cc) for cc in range(24) for rr in range(16)]
+    h["ops"] = [{"op": "enter"},
+                {"op": "transfer", "src": 0, "sw": L(allw), "dst": 1, "dw": L(allw), "vols": {"k": "s", "x": 1}, "label": "Gr\u00f6\u00dfe: 5 \u00b5L", "wash": 1},
+                {"op": "save", "pre": "longer"}, {"op": "str"}, {"op": "exit", "pre": "shorter"}]
+    progs.append(h)
     # a worklist without a path: leaving the block writes nothing
     h = _hdr("files/nopath", dev, file=False)
     h["ops"] = [{"op": "enter"}, some[1], {"op": "exit"}, {"op": "str"}, {"op": "save"}]
